@@ -147,6 +147,20 @@ type SpecSet struct {
 	Files    []string
 }
 
+// sortedGhosts: deterministic iteration order (the order of assumptions influences the solvers).
+func (ss *SpecSet) sortedGhosts() []*GhostDecl {
+	var names []string
+	for n := range ss.Ghosts {
+		names = append(names, n)
+	}
+	sortStrings(names)
+	var out []*GhostDecl
+	for _, n := range names {
+		out = append(out, ss.Ghosts[n])
+	}
+	return out
+}
+
 func NewSpecSet() *SpecSet {
 	return &SpecSet{Contracts: map[string]*Contract{}, Ghosts: map[string]*GhostDecl{}, Defines: map[string]*DefineDecl{}, FieldAnn: map[string]map[string]string{}}
 }
